@@ -90,6 +90,11 @@ def Term.withScr (t : Term) (s : Scr) : Term × List Ev :=
 
 /-- first parameter with the `if paramCount == 0 { params = [d] }` idiom -/
 def p0 (ps : List Int) (d : Int) : Int := match ps with | [] => d | p :: _ => p
+/-- the distance of the relative motions CUU/CUD/CUF/CUB: the first parameter, 1 when it is
+    omitted — also when it is omitted in front of a `;` (the parser stores 0 for that) or given
+    as 0 (VT100, xterm: "a parameter value of zero or one moves one position") -/
+def pMove (ps : List Int) : Int := if p0 ps 1 = 0 then 1 else p0 ps 1
+
 /-- `if len(params) >= k+1 { v = params[k] }` -/
 def pAt (ps : List Int) (k : Nat) (d : Int) : Int := (ps[k]?).getD d
 
@@ -143,10 +148,10 @@ def Term.csiPlain (t : Term) (ps : List Int) (fin : UInt8) : Term × List Ev :=
   let s := t.scr
   let x : Int := s.cx
   let y : Int := s.cy
-  if fin = 0x41 then t.withScr (s.setCursor x (y - p0 ps 1))                 -- A CUU
-  else if fin = 0x42 then t.withScr (s.setCursor x (y + p0 ps 1))            -- B CUD
-  else if fin = 0x43 then t.withScr (s.setCursor (x + p0 ps 1) y)            -- C CUF
-  else if fin = 0x44 then t.withScr (s.setCursor (x - p0 ps 1) y)            -- D CUB
+  if fin = 0x41 then t.withScr (s.setCursor x (y - pMove ps))                -- A CUU
+  else if fin = 0x42 then t.withScr (s.setCursor x (y + pMove ps))           -- B CUD
+  else if fin = 0x43 then t.withScr (s.setCursor (x + pMove ps) y)           -- C CUF
+  else if fin = 0x44 then t.withScr (s.setCursor (x - pMove ps) y)           -- D CUB
   else if fin = 0x47 then t.withScr (s.setCursor (p0 ps 1 - 1) y)            -- G CHA
   else if fin = 0x64 then t.withScr (s.setCursor x (p0 ps 1 - 1))            -- d VPA
   else if fin = 0x66 ∨ fin = 0x48 then                                       -- f, H CUP
